@@ -3,6 +3,7 @@ use crate::fragment::FragmentSpread;
 use crate::fragment::InlineFragment;
 use crate::name::Name;
 use crate::DocumentBuilder;
+use crate::MAX_SELECTION_SET_DEPTH;
 use apollo_compiler::ast;
 use apollo_compiler::Node;
 use arbitrary::Result as ArbitraryResult;
@@ -106,6 +107,13 @@ impl TryFrom<apollo_parser::cst::Selection> for Selection {
 impl DocumentBuilder<'_> {
     /// Create an arbitrary `SelectionSet`
     pub fn selection_set(&mut self) -> ArbitraryResult<SelectionSet> {
+        self.selection_set_depth += 1;
+        let selection_set = self.selection_set_at_current_depth();
+        self.selection_set_depth -= 1;
+        selection_set
+    }
+
+    fn selection_set_at_current_depth(&mut self) -> ArbitraryResult<SelectionSet> {
         let mut exclude_names = Vec::new();
         let selection_nb = self.stack.last().map(|o| o.fields_def().len()).unwrap_or(0);
 
@@ -130,6 +138,11 @@ impl DocumentBuilder<'_> {
                 Some(frag_spread) => Selection::FragmentSpread(frag_spread),
                 None => Selection::Field(self.field(index)?),
             },
+            // An inline fragment nests one more selection set: at the
+            // maximum depth, select a field instead.
+            2 if self.selection_set_depth >= MAX_SELECTION_SET_DEPTH => {
+                Selection::Field(self.field(index)?)
+            }
             2 => Selection::InlineFragment(self.inline_fragment()?),
             _ => unreachable!(),
         };
